@@ -150,6 +150,20 @@ def _cs_block(params, lo, hi):
     return _cs_chunk(params[:4], lo + off, hi + off)
 
 
+def _cs_sparse_chunk(params, lo, hi):
+    """three piece sizes in 1..W, demands from {1,3,5}^3: index = size_code * 27 + demand_code (+ offset)"""
+    W, off = params
+    r = new_result()
+    for idx in range(lo + off, hi + off):
+        demands = [(1, 3, 5)[d] for d in digits(idx % 27, 3, 3)]
+        sizes = [1 + d for d in digits(idx // 27, W, 3)]
+        run_instance(r, sizes, W, demands, ("solve_cg",))
+        if len(r["violations"]) >= 40 or r["counters"]["hangs"] >= 2 or too_many_hangs():
+            r["capped"] = True
+            break
+    return r
+
+
 def custom_cases(W, sizes):
     """every covering subset (size <= 3) of the maximal patterns"""
     mx = maximal_patterns(sizes, W)
@@ -247,6 +261,15 @@ def jobs(tier, seed):
             js.append(Job(f"cg_W{W}_m3", W**3 * 64, _cs_chunk, (W, 3, ("solve_cg",)), describe="solve_cg: three piece sizes in 1..W, demands 0..3"))
         for W in range(7, 13):
             js.append(Job(f"bp_W{W}_m2_demands0to4", W**2 * 25, _cs_chunk, (W, 2, ("solve_bp",), 5), chunk=max(1, W**2 * 25 // 256), describe="solve_bp: two piece sizes, demands 0..4"))
+    # wider rolls, larger demands: degenerate column-generation steps only show up here
+    for W in (14, 16, 18, 20):
+        size = W**3 * 27
+        if tier == "thorough":
+            js.append(Job(f"cg_W{W}_m3_demands135", size, _cs_sparse_chunk, (W, 0), describe="solve_cg: three sizes in 1..W, demands from {1,3,5}^3"))
+        else:
+            b = seed % 16
+            lo, hi = size * b // 16, size * (b + 1) // 16
+            js.append(Job(f"cg_W{W}_m3_demands135_block{b}of16", hi - lo, _cs_sparse_chunk, (W, lo), describe="rotating 1/16 block (VERIF_SEED) of: three sizes in 1..W, demands from {1,3,5}^3"))
     cl = _custom_list(tier)
     js.append(Job("custom_columns", len(cl), _custom_chunk, cl, describe="custom mode: covering subsets of the maximal patterns as initial columns, exact enumerating pricing_fn; solve_cg and solve_bp"))
     return js
